@@ -371,8 +371,13 @@ impl<'a> Context<'a> {
     /// Return the current [Token] and [Span].
     fn peek(&self) -> (&Token, Span) {
         let token = self.tokens.get(self.curr).unwrap_or(&T::EOF);
-        let zero_span = Span::zero(self.file_id);
-        let span = self.spans.get(self.curr).unwrap_or(&zero_span).clone();
+        // Past the end of the input we point at the last token, not at line 0.
+        let end_span = self
+            .spans
+            .last()
+            .cloned()
+            .unwrap_or_else(|| Span::zero(self.file_id));
+        let span = self.spans.get(self.curr).unwrap_or(&end_span).clone();
         (token, span)
     }
 
